@@ -101,6 +101,13 @@ static U32 use(const char* c, U32 x, int ns, char* det, size_t cap) {
     else if (!strcmp(c, "fd_seek")) { e = NS(ns, fd_seek)(I, x, 0, ns == HX_P1 ? 1 : 0, RES); if (!e) snprintf(det, cap, "off=%llu", (unsigned long long)hx_u64(RES)); }
     else if (!strcmp(c, "fd_tell")) { e = NS(ns, fd_tell)(I, x, RES); if (!e) snprintf(det, cap, "off=%llu", (unsigned long long)hx_u64(RES)); }
     else if (!strcmp(c, "fd_readdir")) { e = NS(ns, fd_readdir)(I, x, DIRBUF, 256, 0, RES); if (!e) snprintf(det, cap, "used=%u", hx_u32(RES)); }
+    else if (!strcmp(c, "fd_readdir_moved")) {
+        /* the host moves the directory "sub" away (if it is still there), then the listing is restarted: one step, so that what follows fits the bound */
+        char p1[700], p2[700];
+        snprintf(p1, sizeof p1, "%s/A/sub", hx_work); snprintf(p2, sizeof p2, "%s/A/gone", hx_work);
+        if (rename(p1, p2) != 0 && errno != ENOENT) { fprintf(hx_out, "HARNESS-ERROR rename\n"); fflush(hx_out); _exit(71); }
+        e = NS(ns, fd_readdir)(I, x, DIRBUF, 256, 0, RES); if (!e) snprintf(det, cap, "used=%u", hx_u32(RES));
+    }
     else if (!strcmp(c, "fd_fdstat_get")) { e = NS(ns, fd_fdstat_get)(I, x, STAT); if (!e) snprintf(det, cap, "filetype=%u", hx_mem.data[STAT]); }
     else if (!strcmp(c, "fd_datasync")) e = NS(ns, fd_datasync)(I, x);
     else if (!strcmp(c, "fd_sync")) e = NS(ns, fd_sync)(I, x);
@@ -170,6 +177,12 @@ static void run(char* history) {
             if (!e) snprintf(det, sizeof det, "fd=%u", hx_u32(RES));
         } else if (!strcmp(f[0], "c") && nf == 3) {
             e = NS(atoi(f[2]), fd_close)(I, (U32)strtoul(f[1], 0, 10));
+        } else if (!strcmp(f[0], "hv") && nf == 2) {
+            /* environment: the host (another process) moves the directory "sub" away while descriptors may be open on it */
+            char p1[700], p2[700];
+            name = "host-moves-sub-away";
+            snprintf(p1, sizeof p1, "%s/A/sub", hx_work); snprintf(p2, sizeof p2, "%s/A/gone", hx_work);
+            e = rename(p1, p2) == 0 ? 0 : 1;
         } else if (!strcmp(f[0], "cf") && nf == 3) {
             name = "fd_close";
             failNextClose = 1;
